@@ -215,6 +215,8 @@ func (ex *Exec) callStatic(st *State, fr *Frame, fn *ssa.Function, args []Value,
 			return false
 		}
 		nf := ex.pushFrame(st, fn, args, dst, fr.Depth+1)
+		// loop invariants of an inlined body speak about its own entry state (old, fresh)
+		nf.EntryFull = st.snapshotFull()
 		for i, fv := range fn.FreeVars {
 			if i < len(binds) {
 				nf.Regs[fv] = binds[i]
@@ -249,7 +251,21 @@ func isRepoClass(class string) bool {
 
 func (ex *Exec) preserved(class string) bool { return preservedClass(class) }
 
-func isGhostClass(class string) bool { return strings.Contains(class, "$") }
+// isGhostClass: classes whose frame is strict - they change only where a contract names them, also
+// under 'modifies *': specification state, and the contents of maps declared 'owned-map'.
+func isGhostClass(class string) bool {
+	if strings.Contains(class, "$") {
+		return true
+	}
+	if globalSpecs != nil && strings.HasPrefix(class, "map:") {
+		for c := range globalSpecs.OwnedMaps {
+			if class == c || strings.HasPrefix(class, c+"#") {
+				return true
+			}
+		}
+	}
+	return false
+}
 
 // havocAll forgets the real heap (repository classes only when repoToo). Ghost state changes only
 // through declared events, except at calls of repository code without any contract (ghostToo).
@@ -644,7 +660,7 @@ func (ex *Exec) doAppend(st *State, fr *Frame, c *ssa.CallCommon, args []Value, 
 	cs := comps(et)
 	// the in-place variant writes the caller-visible backing array: frame check
 	if !(st.Fresh[s.Arr]) {
-		ex.checkFrameElem(st, &PtrV{Root: RElem, Arr: s.Arr, Idx: Add(s.Off, s.Len), Elem: et}, pos, fits)
+		ex.checkFrameElem(st, &PtrV{Root: RElem, Arr: s.Arr, Idx: Add(s.Off, s.Len), Elem: et}, pos, And(fits, Lt(Zero, tLen)))
 	}
 	for _, cp := range cs {
 		h := st.heapGet(cls+cp.Suffix, heapSort(2, cp.Sort))
